@@ -704,10 +704,10 @@ Proof. intros Hw. apply tick_exact_sim. apply Sim_run. assumption. Qed.
 
 Lemma tick_stale_sim s sp p a :
   Sim s sp -> (forall x u, ~ In (p, (x, u)) (regs sp)) ->
-  step s (Tick p a) = (s, []) \/ step s (Tick p a) = (s, [FaultSendOnClosed]).
+  step s (Tick p a) = (s, []).
 Proof.
   intros [HI HR HU Ho] Hno.
-  unfold step. destruct (closed s) eqn:C; [right; reflexivity|left].
+  unfold step. destruct (closed s) eqn:C; [reflexivity|].
   unfold step_tick. destruct (lookup p (groups s)) as [g|] eqn:L; [|reflexivity].
   exfalso. destruct HI as [Hk Hg _ _]. pose proof (lookup_In _ _ _ L) as Lin.
   assert (Gok : group_ok g). { rewrite Forall_forall in Hg. apply (Hg _ Lin). }
@@ -717,8 +717,7 @@ Qed.
 
 Lemma tick_stale evs p a :
   wf_hist evs -> (forall x u, ~ In (p, (x, u)) (regs (spec_run evs))) ->
-  step (run evs) (Tick p a) = (run evs, []) \/
-  step (run evs) (Tick p a) = (run evs, [FaultSendOnClosed]).
+  step (run evs) (Tick p a) = (run evs, []).
 Proof. intros Hw. apply tick_stale_sim. apply Sim_run. assumption. Qed.
 
 (* a tick never changes the state *)
@@ -982,10 +981,9 @@ Proof.
         | 
         | rewrite (proj1 (quiet_events s Close ltac:(intros; discriminate))); reflexivity ].
       destruct (spec_pairs sp p) as [|w ws] eqn:W.
-      * destruct (tick_stale_sim s sp p a HSim) as [E|E].
-        { intros x u H. apply spec_pairs_In in H. rewrite W in H. destruct H. }
-        { rewrite E. reflexivity. }
-        { rewrite E. reflexivity. }
+      * assert (E : step s (Tick p a) = (s, [])).
+        { apply (tick_stale_sim s sp p a HSim). intros x u H. apply spec_pairs_In in H. rewrite W in H. destruct H. }
+        rewrite E. reflexivity.
       * destruct (tick_exact_sim s sp p a HSim Open) as [q [E [Hn [Hne Hiff]]]].
         { destruct w as [x u]. exists x, u. apply spec_pairs_In. rewrite W. left. reflexivity. }
         rewrite E. cbn [snd]. assert (Q : queries_of (Query q :: notifications a) = [q]).
@@ -1002,8 +1000,9 @@ Proof.
         | 
         | rewrite (proj2 (quiet_events s Close ltac:(intros; discriminate))); reflexivity ].
       assert (Hstale : spec_pairs sp p = [] -> notifies_of (snd (step s (Tick p a))) = []).
-      { intros W. destruct (tick_stale_sim s sp p a HSim) as [E|E]; [|rewrite E; reflexivity|rewrite E; reflexivity].
-        intros x u H. apply spec_pairs_In in H. rewrite W in H. destruct H. }
+      { intros W. assert (E : step s (Tick p a) = (s, [])).
+        { apply (tick_stale_sim s sp p a HSim). intros x u H. apply spec_pairs_In in H. rewrite W in H. destruct H. }
+        rewrite E. reflexivity. }
       assert (Hlive : spec_pairs sp p <> [] -> notifies_of (snd (step s (Tick p a))) =
                       match a with Some l => map (fun e => (fst e, map mark (snd e))) l | None => [] end).
       { intros W. destruct (spec_pairs sp p) as [|[x u] ws] eqn:W'; [exfalso; apply W; reflexivity|].
